@@ -192,7 +192,7 @@ def kind_of(d):
 
 def gen_case(streams: Streams, tier: str, prop='C14') -> dict:
     cfg = streams.get('config')
-    space = searchlib.gen_space(cfg, max_points=3)
+    space = searchlib.gen_space(cfg, max_points=3, bias=cfg.random() < 0.6)
     ops = streams.get('ops')
     n_ops = ops.randint(3, 7)
     tested = []
@@ -212,8 +212,13 @@ def gen_case(streams: Streams, tier: str, prop='C14') -> dict:
                  'b': {'c': '>>', 'a': gen_leaf(ops, ('rec',)), 'b': gen_leaf(ops, ('mut',))}}
     v = streams.get('views')
     views = [[v.choice(KEY_TYPES), v.choice(VALUE_TYPES), v.choice(MULTI_KEYS)] for _ in range(3)]
-    return {'prop': prop, 'space': space, 'pop': pop,
-            'gens': cfg.randint(4, 10 if tier == 'quick' else 30),
+    mx = streams.get('matrix')
+    names = ['m.Uniform', 'm.Swap', 'r.Uniform', 'r.Sample', 'r.Average', 'r.WeightedAverage',
+             'r.KPoint', 'r.Segmented', 'r.PartiallyMapped', 'r.Order', 'r.Cycle']
+    matrix = [[n, mx.randint(0, 10 ** 6)] for n in mx.sample(names, 5)]
+    return {'prop': prop, 'space': space, 'pop': pop, 'matrix': matrix,
+            'matrix_m': mx.randint(2, 5),
+            'gens': cfg.randint(3, 8 if tier == 'quick' else 30),
             'seed': cfg.randint(0, 10 ** 6), 'tested': tested, 'repro': repro, 'views': views,
             'algo_kind': cfg.choice(['evolution', 'evolution', 'regevo', 'hill_climb', 'sweeping',
                                      'random']),
@@ -405,6 +410,89 @@ def run_case(case: dict, prop=None):
         except Exception as e:  # pylint: disable=broad-except
             probes['unbuildable_expr'] = probes.get('unbuildable_expr', 0) + 1
     n_applied = 0
+    extra_parents = None
+    try:
+        extra_parents = pg.geno.Random(seed=case['seed'] + 1)
+        extra_parents.setup(spec)
+    except Exception:  # pylint: disable=broad-except
+        extra_parents = None
+
+    def apply_op(desc, op1, op2, inputs, pop, g):
+        nonlocal n_applied
+        before = _snap(inputs)
+        pop_before = _snap(pop)
+        gs = pg.geno.AttributeDict()
+        _global_random.seed(case['noise_a'] + 13 * g)
+        try:
+            out1 = op1(inputs, global_state=gs, step=g)
+            err1 = None
+        except Exception as e:  # pylint: disable=broad-except
+            out1, err1 = None, e
+        n_applied += 1
+        where = kind_of(desc)
+        if _snap(inputs) != before or _snap(pop) != pop_before:
+            bad('C14.input-modified', where,
+                f'{where} {desc} modified the DNAs / list passed in', g)
+            return False
+        if err1 is not None and _must_not_raise(desc, err1):
+            bad('C14.operator-raises', f'{where}|{type(err1).__name__}',
+                f'{where} {desc} raised {type(err1).__name__}: {str(err1)[:200]} on valid '
+                f'parents {[x.to_numbers() for x in inputs[:4]]}', g)
+            return False
+        # determinism of seeded operators w.r.t. the global random stream: the
+        # twin sees every call the first instance sees (also the failing ones,
+        # which consume seeded randomness too)
+        _global_random.seed(case['noise_b'] + 17 * g + 3)
+        try:
+            out2 = op2(list(inputs), global_state=pg.geno.AttributeDict(), step=g)
+        except Exception as e:  # pylint: disable=broad-except
+            out2 = e
+        if err1 is not None:
+            probes['operator_inapplicable'] = probes.get('operator_inapplicable', 0) + 1
+            faults['operator_raised_inputs_rechecked'] = \
+                faults.get('operator_raised_inputs_rechecked', 0) + 1
+            return True
+        if _uses_only_seeds(desc):
+            n1 = [x.to_numbers() if isinstance(x, pg.DNA) else repr(x) for x in out1]
+            n2 = out2 if isinstance(out2, Exception) else \
+                [x.to_numbers() if isinstance(x, pg.DNA) else repr(x) for x in out2]
+            if n1 != n2:
+                bad('C14.seed-nondeterministic', where,
+                    f'{where} {desc}: two instances with the same seeds and inputs give '
+                    f'{n1} and {n2!r:.200} under different global random states', g)
+                return False
+        if not isinstance(out1, list):
+            bad('C14.output-type', where, f'{where} returned {type(out1).__name__}', g)
+            return False
+        if is_pure_selector(desc):
+            ids = {id(x) for x in inputs}
+            if any(id(x) not in ids for x in out1):
+                bad('C14.selector-not-member', where,
+                    f'{where} {desc} returned an object that is not a member of its input', g)
+                return False
+            if 'op' in desc and desc['op'] in ('Top', 'Bottom', 'First', 'Last', 'Random',
+                                               'Sample', 'Proportional'):
+                want = S.compute_num_output(desc['n'], len(inputs), g)
+                if desc['op'] in ('Top', 'Bottom') and desc.get('cluster'):
+                    want = None
+                elif desc['op'] in ('Top', 'Bottom', 'First', 'Last') or \
+                        (desc['op'] == 'Random' and not desc.get('replacement')):
+                    want = min(want, len(inputs))
+                if want is not None and len(out1) != want:
+                    bad('C14.selector-count', desc['op'],
+                        f'{desc} on {len(inputs)} inputs returned {len(out1)} items, '
+                        f'documented number is {want}', g)
+                    return False
+                if desc['op'] == 'Random' and not desc.get('replacement') and \
+                        len({id(x) for x in out1}) != len(out1):
+                    bad('C14.selector-count', 'Random-duplicates',
+                        f'{desc} without replacement returned one member twice', g)
+                    return False
+        for x in out1[:(1 if prop == 'C12' else 4)]:
+            if isinstance(x, pg.DNA):
+                check_dna(x, where, g)
+        return True
+
     for g in range(case['gens']):
         if V:
             break
@@ -456,76 +544,63 @@ def run_case(case: dict, prop=None):
             if V:
                 break
             inputs = list(pop)
+            if 'op' in desc and desc['op'].startswith('r.') and len(pop) > 3 and (g + desc.get('seed', 0)) % 2:
+                k3 = 3 + (g % 2)
+                start = (g * 7 + desc.get('seed', 0)) % len(pop)
+                inputs = [pop[(start + j) % len(pop)] for j in range(min(k3, len(pop)))]
             np_ = getattr(op1, 'NUM_PARENTS', None)
             if np_ is not None:
                 if len(inputs) < np_:
                     continue
                 inputs = inputs[:np_]
-            before = _snap(inputs)
-            pop_before = _snap(pop)
-            gs = pg.geno.AttributeDict()
-            _global_random.seed(case['noise_a'] + 13 * g)
-            try:
-                out1 = op1(inputs, global_state=gs, step=g)
-                err1 = None
-            except Exception as e:  # pylint: disable=broad-except
-                out1, err1 = None, e
-            n_applied += 1
-            where = kind_of(desc)
-            if _snap(inputs) != before or _snap(pop) != pop_before:
-                bad('C14.input-modified', where,
-                    f'{where} {desc} modified the DNAs / list passed in', g)
+            if not apply_op(desc, op1, op2, inputs, pop, g):
                 break
-            if err1 is not None:
-                probes['operator_inapplicable'] = probes.get('operator_inapplicable', 0) + 1
-                faults['operator_raised_inputs_rechecked'] = \
-                    faults.get('operator_raised_inputs_rechecked', 0) + 1
+            # recombinators and mutators are also applied to parents that no
+            # selection has filtered: arbitrary valid DNAs of the specification
+            if 'op' in desc and desc['op'][:2] in ('r.', 'm.') and extra_parents is not None:
+                for j in range(2):
+                    k = 1 if desc['op'].startswith('m.') else 2 + (g + j) % 3
+                    np_ = getattr(op1, 'NUM_PARENTS', None)
+                    if np_ is not None:
+                        k = np_
+                    try:
+                        ps = [extra_parents.propose() for _ in range(k)]
+                        for d in ps:
+                            pg.evolution.set_fitness(d, searchlib.reward_of(d, g + j + 1))
+                    except Exception:  # pylint: disable=broad-except
+                        break
+                    probes['random_parents'] = probes.get('random_parents', 0) + 1
+                    if not apply_op(desc, op1, op2, ps, ps, g):
+                        break
+    # ---- operator matrix: a seeded sample of the shipped mutator / recombinator
+    # classes, each applied to arbitrary valid parents of the specification
+    # (2..4 of them, some on other branches of a conditional space)
+    if not V and extra_parents is not None and case.get('matrix'):
+        g = case['gens']
+        for name, mseed in case['matrix']:
+            desc = {'op': name, 'seed': mseed}
+            if name == 'r.KPoint':
+                desc['k'] = 1 + mseed % 3
+            try:
+                op1, op2 = build(desc), build(desc)
+            except Exception:  # pylint: disable=broad-except
                 continue
-            # determinism of seeded operators w.r.t. the global random stream
-            _global_random.seed(case['noise_b'] + 17 * g + 3)
-            try:
-                out2 = op2(list(inputs), global_state=pg.geno.AttributeDict(), step=g)
-            except Exception as e:  # pylint: disable=broad-except
-                out2 = e
-            if _uses_only_seeds(desc):
-                n1 = [x.to_numbers() if isinstance(x, pg.DNA) else repr(x) for x in out1]
-                n2 = out2 if isinstance(out2, Exception) else \
-                    [x.to_numbers() if isinstance(x, pg.DNA) else repr(x) for x in out2]
-                if n1 != n2:
-                    bad('C14.seed-nondeterministic', where,
-                        f'{where} {desc}: two instances with the same seeds and inputs give '
-                        f'{n1} and {n2!r:.200} under different global random states', g)
+            for j in range(case.get('matrix_m', 3)):
+                k = 1 if name.startswith('m.') else 2 + (mseed + j) % 3
+                np_ = getattr(op1, 'NUM_PARENTS', None)
+                if np_ is not None:
+                    k = np_
+                try:
+                    ps = [extra_parents.propose() for _ in range(k)]
+                    for d in ps:
+                        pg.evolution.set_fitness(d, searchlib.reward_of(d, g + j + 1))
+                except Exception:  # pylint: disable=broad-except
                     break
-            if not isinstance(out1, list):
-                bad('C14.output-type', where, f'{where} returned {type(out1).__name__}', g)
+                probes['matrix_applications'] = probes.get('matrix_applications', 0) + 1
+                if not apply_op(desc, op1, op2, ps, ps, g + j):
+                    break
+            if V:
                 break
-            if is_pure_selector(desc):
-                ids = {id(x) for x in inputs}
-                if any(id(x) not in ids for x in out1):
-                    bad('C14.selector-not-member', where,
-                        f'{where} {desc} returned an object that is not a member of its input', g)
-                    break
-                if 'op' in desc and desc['op'] in ('Top', 'Bottom', 'First', 'Last', 'Random',
-                                                   'Sample', 'Proportional'):
-                    want = S.compute_num_output(desc['n'], len(inputs), g)
-                    if desc['op'] in ('Top', 'Bottom') and desc.get('cluster'):
-                        want = None
-                    elif desc['op'] in ('Top', 'Bottom', 'First', 'Last') or \
-                            (desc['op'] == 'Random' and not desc.get('replacement')):
-                        want = min(want, len(inputs))
-                    if want is not None and len(out1) != want:
-                        bad('C14.selector-count', desc['op'],
-                            f'{desc} on {len(inputs)} inputs returned {len(out1)} items, '
-                            f'documented number is {want}', g)
-                        break
-                    if desc['op'] == 'Random' and not desc.get('replacement') and \
-                            len({id(x) for x in out1}) != len(out1):
-                        bad('C14.selector-count', 'Random-duplicates',
-                            f'{desc} without replacement returned one member twice', g)
-                        break
-            for x in out1[:(1 if prop == 'C12' else 4)]:
-                if isinstance(x, pg.DNA):
-                    check_dna(x, where, g)
     return {
         'violations': V,
         'digest': digest([log, [v.sig for v in V]]),
@@ -535,6 +610,25 @@ def run_case(case: dict, prop=None):
         'states': states, 'interleaving': None,
         'summary': {'algo': case.get('algo_kind'), 'gens': len(log), 'operators_applied': n_applied},
     }
+
+
+# operators that are defined on every space shape: an exception on valid parents is
+# not "inapplicable" (segment-wise and permutation recombinators do reject some shapes)
+_TOTAL_OPS = ('m.Swap', 'r.Uniform', 'r.Sample', 'r.Average', 'r.WeightedAverage',
+              'Random', 'Sample', 'Proportional', 'Top', 'Bottom', 'First', 'Last')
+
+
+def _must_not_raise(d, err):
+    if 'c' in d:
+        return False
+    if d['op'] == 'm.Uniform':
+        return not (isinstance(err, RuntimeError) and 'Immutable DNA' in str(err))
+    if d['op'] in ('Sample', 'Proportional') and isinstance(err, (ValueError, ZeroDivisionError,
+                                                                 IndexError)):
+        return False        # empty input / zero output count
+    if d['op'] == 'Random' and isinstance(err, (ValueError, IndexError)):
+        return False
+    return d['op'] in _TOTAL_OPS
 
 
 def _uses_only_seeds(d):
@@ -560,7 +654,7 @@ def shrink_candidates(case):
         yield 'random-driver', c
 
 
-LIST_PARTS = [('tested',), ('views',)]
+LIST_PARTS = [('tested',), ('views',), ('matrix',)]
 
 
 def budget(tier, prop=None):
